@@ -2,9 +2,57 @@ package props
 
 import (
 	"fmt"
+	"go/ast"
+	"go/types"
+	"sort"
+	"strings"
+
+	"golang.org/x/tools/go/packages"
 
 	"verif/tool/goan"
+	"verif/tool/load"
 )
+
+// checkMethodExhaustive: a function that touches at least three of PathItem's seven
+// operation fields enumerates the HTTP methods; it must touch all seven.
+func checkMethodExhaustive(c *Ctx, rule string, pk *packages.Package, floor int) {
+	c.Rule(rule, "functions enumerating the operations of a path item (≥ 3 of Get/Put/Post/Delete/Options/Head/Patch) mention all seven methods", floor)
+	info := pk.TypesInfo
+	all := []string{"Delete", "Get", "Head", "Options", "Patch", "Post", "Put"}
+	for _, fd := range load.AllFuncs(pk) {
+		seen := map[string]bool{}
+		ast.Inspect(fd.Body, func(n ast.Node) bool {
+			se, ok := n.(*ast.SelectorExpr)
+			if !ok {
+				return true
+			}
+			sel, ok := info.Selections[se]
+			if !ok || sel.Kind() != types.FieldVal {
+				return true
+			}
+			if v, ok := sel.Obj().(*types.Var); ok && v.Pkg() != nil && strings.HasSuffix(v.Pkg().Path(), "go-openapi/spec") {
+				for _, m := range all {
+					if se.Sel.Name == m && goan.NamedName(v.Type()) == "Operation" {
+						seen[m] = true
+					}
+				}
+			}
+			return true
+		})
+		if len(seen) < 3 {
+			continue
+		}
+		var missing []string
+		for _, m := range all {
+			if !seen[m] {
+				missing = append(missing, m)
+			}
+		}
+		sort.Strings(missing)
+		c.Check(len(missing) == 0, rule, pk.Name+"."+load.FuncName(fd)+" › all seven HTTP methods", c.posOf(pk, fd.Pos()), "Get, Put, Post, Delete, Options, Head, Patch all handled",
+			fmt.Sprintf("the function handles %d of the seven operation fields of a path item but not %v: operations with that method are silently dropped", len(seen), missing))
+	}
+}
 
 // DumpPanic prints the unproven may-panic sites of a package (debugging aid).
 func DumpPanic(c *Ctx, pattern string) {
